@@ -19,6 +19,8 @@ pub const PUB_ED: &[u8] = b"\x30\x2a\x30\x05\x06\x03\x2b\x65\x70\x03\x21\x00";
 pub enum Case {
     /// generated pair: DER and PEM of both halves
     Pair(u64),
+    /// generated pair whose 32 private bytes follow a pattern (all zero, ASCII text, high bits, ...)
+    PairPattern(u8, u64),
     /// Ed25519 private/public pair built by the harness from a 32-byte seed
     Ed(u64),
     /// PEM presentation variants of a valid key
@@ -29,7 +31,7 @@ pub enum Case {
     Hostile(Vec<u8>),
 }
 
-struct SeedRng(Rng);
+struct SeedRng(Rng, u8);
 impl rand_core::RngCore for SeedRng {
     fn next_u32(&mut self) -> u32 {
         self.0.next() as u32
@@ -39,6 +41,50 @@ impl rand_core::RngCore for SeedRng {
     }
     fn fill_bytes(&mut self, dest: &mut [u8]) {
         self.0.fill(dest);
+        pattern(self.1, dest, &mut self.0);
+    }
+}
+
+/// structured key material: what random draws never produce
+pub fn pattern(id: u8, dest: &mut [u8], rng: &mut Rng) {
+    match id {
+        0 => {}
+        1 => dest.fill(0),
+        2 => dest.fill(1),
+        3 => dest.fill(0x7f),
+        4 => dest.fill(0x80),
+        5 => dest.fill(0xff),
+        6 => {
+            // printable ASCII text
+            for b in dest.iter_mut() {
+                *b = b' ' + (rng.below(95) as u8);
+            }
+        }
+        7 => {
+            // valid multi-byte UTF-8
+            let t = "clé privée 日本語 שלום — key material!".as_bytes();
+            for (i, b) in dest.iter_mut().enumerate() {
+                *b = t[i % t.len()];
+            }
+        }
+        8 => {
+            dest[0] = 0;
+            dest[1] = 0;
+        }
+        9 => {
+            let n = dest.len();
+            dest[n - 1] = 0;
+        }
+        10 => {
+            for b in dest.iter_mut() {
+                *b &= 0x7f;
+            }
+        }
+        _ => {
+            for (i, b) in dest.iter_mut().enumerate() {
+                *b = i as u8;
+            }
+        }
     }
 }
 impl rand_core::CryptoRng for SeedRng {}
@@ -94,6 +140,11 @@ pub fn cases(ctx: &Ctx) -> Vec<Case> {
         v.push(Case::Pair(rng.next()));
         v.push(Case::Ed(rng.next()));
     }
+    for pat in 1..=12u8 {
+        for _ in 0..(if ctx.quick() { 20 } else { 400 }) {
+            v.push(Case::PairPattern(pat, rng.next()));
+        }
+    }
     for _ in 0..n / 10 {
         for var in 0..8 {
             v.push(Case::PemVariant(rng.next(), var));
@@ -140,6 +191,10 @@ pub fn cases(ctx: &Ctx) -> Vec<Case> {
             }
         }
     }
+    // structure-aware hostile DER: every length field is CONSISTENT, the contents are not what is expected
+    for i in 0..(if ctx.quick() { 6000 } else { 200_000 }) {
+        v.push(Case::Hostile(structured_der(&mut rng, i)));
+    }
     // nested length overflows, indefinite lengths, huge lengths, random bytes
     let extra = if ctx.quick() { 120_000 } else { 2_000_000 };
     for i in 0..extra {
@@ -174,6 +229,81 @@ pub fn cases(ctx: &Ctx) -> Vec<Case> {
     v
 }
 
+fn tlv(tag: u8, content: &[u8], long_form: u8) -> Vec<u8> {
+    let mut v = vec![tag];
+    let n = content.len();
+    match long_form {
+        0 if n < 128 => v.push(n as u8),
+        1 if n < 256 => v.extend([0x81, n as u8]),
+        _ => v.extend([0x82, (n >> 8) as u8, n as u8]),
+    }
+    v.extend_from_slice(content);
+    v
+}
+
+/// PKCS#8 private / SubjectPublicKeyInfo public structures with correct lengths and odd contents
+fn structured_der(rng: &mut Rng, i: usize) -> Vec<u8> {
+    let lf = |rng: &mut Rng| if rng.chance(1, 6) { 1 + rng.below(2) as u8 } else { 0 };
+    let oid: Vec<u8> = match rng.below(6) {
+        0 => vec![0x2b, 0x65, 0x70],
+        1 => vec![0x2b, 0x65, 0x6e],
+        2 => vec![0x2b, 0x65, 0x71],
+        3 => vec![],
+        4 => vec![0x2a, 0x86, 0x48, 0x86, 0xf7, 0x0d, 0x01, 0x01, 0x01],
+        _ => {
+            let n = 1 + rng.usize_below(6);
+            rng.bytes(n)
+        }
+    };
+    let klen = *rng.pick(&[0usize, 1, 15, 16, 30, 31, 32, 32, 32, 33, 34, 64, 200]);
+    let key = rng.bytes(klen);
+    let alg = {
+        let mut c = tlv(0x06, &oid, lf(rng));
+        if rng.chance(1, 8) {
+            c.extend(tlv(0x05, &[], 0)); // NULL parameters
+        }
+        tlv(0x30, &c, lf(rng))
+    };
+    if i % 2 == 0 {
+        // private: SEQ { INT, SEQ { OID }, OCTET STRING { [04 L] key } }
+        let declared = *rng.pick(&[klen as u8, 32, 32, 0, 31, 33, 0x80, 0xff]);
+        let inner_tag = *rng.pick(&[0x04u8, 0x04, 0x04, 0x03, 0x30, 0x00]);
+        let mut inner = Vec::new();
+        match rng.below(8) {
+            0 => {} // empty octet string
+            1 => inner.push(inner_tag),
+            _ => {
+                inner.push(inner_tag);
+                inner.push(declared);
+                inner.extend_from_slice(&key);
+            }
+        }
+        let int = match rng.below(5) {
+            0 => vec![],
+            1 => vec![1],
+            2 => vec![0, 0],
+            _ => vec![0],
+        };
+        let mut c = tlv(0x02, &int, 0);
+        c.extend(alg);
+        c.extend(tlv(*rng.pick(&[0x04u8, 0x04, 0x04, 0x03, 0x24]), &inner, lf(rng)));
+        if rng.chance(1, 10) {
+            c.extend(tlv(0xa1, &rng.bytes(3), 0)); // optional attributes / public key
+        }
+        tlv(0x30, &c, lf(rng))
+    } else {
+        // public: SEQ { SEQ { OID }, BIT STRING { unused, key } }
+        let mut bits = Vec::new();
+        if !rng.chance(1, 10) {
+            bits.push(*rng.pick(&[0u8, 0, 0, 1, 7, 8, 0xff]));
+        }
+        bits.extend_from_slice(&key);
+        let mut c = alg;
+        c.extend(tlv(*rng.pick(&[0x03u8, 0x03, 0x03, 0x04, 0x23]), &bits, lf(rng)));
+        tlv(0x30, &c, lf(rng))
+    }
+}
+
 fn all_parsers(data: &[u8]) -> [bool; 5] {
     [
         cp::parse_openssl_25519_privkey_der(data).is_ok(),
@@ -187,11 +317,16 @@ fn all_parsers(data: &[u8]) -> [bool; 5] {
 pub fn run_case(ctx: &mut Ctx, c: &Case) {
     let scen = || json!({"case": c, "k": "prod"});
     match c {
-        Case::Pair(seed) => {
-            ctx.eval(*seed, true);
-            ctx.count("pair");
+        Case::Pair(_) | Case::PairPattern(..) => {
+            let (pat, seed) = match c {
+                Case::Pair(s) => (0u8, s),
+                Case::PairPattern(p, s) => (*p, s),
+                _ => unreachable!(),
+            };
+            ctx.eval(*seed ^ u64::from(pat) << 48, true);
+            ctx.count(if pat == 0 { "pair" } else { "pair_patterned_key_bytes" });
             let r = guarded(|| -> Result<(), String> {
-                let mut rng = SeedRng(Rng::new(*seed));
+                let mut rng = SeedRng(Rng::new(*seed), pat);
                 let kp = cp::generate_keypair(&mut rng).ok_or("generate_keypair returned None")?;
                 let s_der = cp::parse_openssl_25519_privkey(&kp.private_der).map_err(|e| format!("private DER does not parse: {e:?}"))?;
                 let p_der = cp::parse_openssl_25519_pubkey(&kp.public_der).map_err(|e| format!("public DER does not parse: {e:?}"))?;
@@ -301,7 +436,13 @@ pub fn run_case(ctx: &mut Ctx, c: &Case) {
         Case::Hostile(data) => {
             ctx.eval(model::prng::fnv(data), true);
             let m0 = alloc::mark();
-            let r = guarded(|| all_parsers(data));
+            let r = guarded(|| {
+                let a = all_parsers(data);
+                // the same bytes wrapped as PEM reach the DER parsers through the PEM entry points
+                let p1 = all_parsers(pem("PRIVATE KEY", data, 64, "\n", true).as_bytes());
+                let p2 = all_parsers(pem("PUBLIC KEY", data, 64, "\n", true).as_bytes());
+                [a[0] | p1[0] | p2[0], a[1] | p1[1] | p2[1], a[2] | p1[2] | p2[2], a[3] | p1[3] | p2[3], a[4] | p1[4] | p2[4]]
+            });
             let m1 = alloc::stats();
             match r {
                 Ok(res) => {
